@@ -60,8 +60,31 @@ pub fn with_sink<U: Use>(kind: &str, cap: usize, u: &mut U) -> Option<After> {
         "vec" => { let mut v: Vec<u8> = Vec::new(); u.run(&mut v); Some(After { position: v.len(), content: v, canary: true, untouched: true }) }
         "iow" => { let mut w = minicbor::encode::write::Writer::new(Vec::<u8>::new()); u.run(&mut w); let v = w.into_inner();
                    Some(After { position: v.len(), content: v, canary: true, untouched: true }) }
+        // std::io writers that make short writes: a bounded byte slice, and an unbounded one that takes at most three bytes per call
+        "iowslice" => {
+            let mut backing = vec![CANARY; cap + 32];
+            for b in &mut backing[16..16 + cap] { *b = FILL }
+            let position;
+            {
+                let mid: &mut [u8] = &mut backing[16..16 + cap];
+                let mut w = minicbor::encode::write::Writer::new(mid);
+                u.run(&mut w);
+                position = cap - w.into_inner().len();
+            }
+            let canary = backing[..16].iter().all(|b| *b == CANARY) && backing[16 + cap..].iter().all(|b| *b == CANARY);
+            let p = position.min(cap);
+            Some(After { position, content: backing[16..16 + p].to_vec(), canary, untouched: backing[16 + p..16 + cap].iter().all(|b| *b == FILL) })
+        }
+        "iowchunk" => { let mut w = minicbor::encode::write::Writer::new(Chunky(Vec::new())); u.run(&mut w); let v = w.into_inner().0;
+                        Some(After { position: v.len(), content: v, canary: true, untouched: true }) }
         _ => None
     }
+}
+/// A std::io::Write that accepts at most three bytes per call.
+pub struct Chunky(pub Vec<u8>);
+impl std::io::Write for Chunky {
+    fn write(&mut self, b: &[u8]) -> std::io::Result<usize> { let n = b.len().min(3); self.0.extend_from_slice(&b[..n]); Ok(n) }
+    fn flush(&mut self) -> std::io::Result<()> { Ok(()) }
 }
 
 pub const CARRAY_CAPS: &[usize] = &[0,1,2,3,4,5,6,7,8,9,10,11,12,13,14,15,16,17,18,19,20,21,22,23,24,25,26,27,28,29,30,31,32,33,40,48,64,65,100,128,256,300,512,1024];
